@@ -198,3 +198,7 @@ mod no_std_tests {
         assert_eq!(4, i);
     }
 }
+
+#[cfg(kani)]
+#[path = "/verif/kani/utils_proofs.rs"]
+pub(crate) mod verif_proofs; // verification hook (H2): specs and contract harnesses live in /verif
